@@ -141,9 +141,9 @@ ref_body = (
 # )
 
 
-ref_short = _c + pp.CaselessLiteral('ref') + name('name')[0, 1] + ':' - ref_body
+ref_short = _c + pp.CaselessKeyword('ref') + name('name')[0, 1] + ':' - ref_body
 ref_long = _c + (
-    pp.CaselessLiteral('ref') + _
+    pp.CaselessKeyword('ref') + _
     + name('name')[0, 1] + _
     + '{' + _
     - ref_body + _
